@@ -13,6 +13,26 @@ from mc import core
 
 
 def main(argv=None) -> int:
+    """All scratch space of a run (worker scratch directories, child processes, tempfile users inside semantiva) lives under one
+    directory that is removed when the run ends, however it ends."""
+    import shutil
+    import tempfile
+
+    root = tempfile.mkdtemp(prefix="verif_run_")
+    os.environ["TMPDIR"] = root
+    tempfile.tempdir = root
+    cwd = os.getcwd()
+    try:
+        return _main(argv)
+    finally:
+        try:
+            os.chdir(cwd)
+        except OSError:
+            os.chdir("/")
+        shutil.rmtree(root, ignore_errors=True)
+
+
+def _main(argv=None) -> int:
     ap = argparse.ArgumentParser()
     ap.add_argument("prop")
     ap.add_argument("--tier", default=os.environ.get("VERIF_TIER", "quick"), choices=["quick", "thorough"])
